@@ -681,3 +681,46 @@ var vfInvalidDocs = []string{
 	"version: \"1alpha4\"\nrules:\n- id: x\n  match: 5\n", // type confusion
 	"rules:\n- id: x\n  match:\n    routes:\n      - path: /x\n  execute:\n    - authenticator: a\n", // version missing
 }
+
+// ---------------------------------------------------------------------------------------------
+// replay (bin/check C18 --replay <file>): only the stored sequence is executed, by the binary of its provider
+
+// vfReplayCase returns the case stored in the replay file of this run (ok=false: not a replay run).
+func vfReplayCase(r *core.Run) (provider, mode string, seq []string, variant string, ok bool) {
+	if r.Replay == nil {
+		return "", "", nil, "", false
+	}
+	c, _ := r.Replay["case"].(map[string]any)
+	provider, _ = c["provider"].(string)
+	mode, _ = c["mode"].(string)
+	variant, _ = c["variant"].(string)
+	if l, isList := c["sequence"].([]any); isList {
+		for _, e := range l {
+			seq = append(seq, fmt.Sprint(e))
+		}
+	}
+	return provider, mode, seq, variant, true
+}
+
+// vfSymbols maps symbol names back to their numbers.
+func vfSymbols(names []string, table []string) ([]int, bool) {
+	out := make([]int, len(names))
+	for i, n := range names {
+		out[i] = -1
+		for j, t := range table {
+			if t == n {
+				out[i] = j
+			}
+		}
+		if out[i] < 0 {
+			return nil, false
+		}
+	}
+	return out, true
+}
+
+func vfFlushStats(r *core.Run, st *vfStats) {
+	for k, v := range st.m {
+		r.Count(k, v)
+	}
+}
